@@ -165,6 +165,12 @@ func runC05(c *Ctx) {
 	ruleHandlerErrorKeepsConn(c, "R05.d")
 	ruleOwnedBytes(c, "R05.e")
 	ruleAccessorsIdentity(c, "R05.f")
+	// "precisely the decoded arguments" presupposes that decoding does not depend on how the bytes
+	// arrive, and "what the handler returns is what the client receives" that the serialized reply
+	// is not shared with another connection
+	ruleReaderUses(c, "R05.g", "R05.g")
+	ruleBulkFrame(c, "R05.g")
+	ruleReplyBufferLocal(c, "R05.h")
 	c.assume("[]byte<->string conversions are the identity; strconv parses decimal integers and floats as documented")
 }
 
@@ -237,7 +243,7 @@ func firstDiff(a, b string) string {
 func ruleCaseInsensitive(c *Ctx, rid string) {
 	c.rule(rid, "the executor table is indexed with strings.ToUpper(command name); every registered name equals its upper-casing; every case constant of a switch whose tag is strings.ToUpper(x) is upper case (a mixed-case constant is dead code); option keywords are compared after strings.ToUpper")
 	for _, d := range c.P.dispatchers() {
-		call, ok := d.Key.(*ssa.Call)
+		call, ok := d.KeyExpr.(*ssa.Call)
 		okKey := ok && calleeName(call.Common()) == "strings.ToUpper"
 		if okKey {
 			_, isPar := strip(call.Common().Args[0]).(*ssa.Parameter)
